@@ -135,6 +135,9 @@ func allSeeds() []seed {
 	// harness-built
 	add("built-key-response", "keys", "", keyResponse("valid", "valid"))
 	add("built-header", "header", "", []byte(headerClass("valid")))
+	for i, hs := range []string{"xm:a:k1:d|xm:a:k2:d", "xm:a:k1:d|other|xm:b:k1:n", "other|xm:a:k1:n", "xm:a:k1:d|xm:a:k1:d|xm:a:k2:x"} {
+		add("built-headers-"+string(rune('a'+i)), "headers", "", []byte(headerLines(hs)))
+	}
 	add("built-signed", "json", "10", signedDoc("valid"))
 	for _, ver := range AllVersions {
 		c := roomFor(ver, roomOpts{})
